@@ -14,7 +14,9 @@ and compares g / env exactly with the model's prediction and requires changed to
 footprint.  A difference is a correspondence difference.  The oracle (independent of the model): results of copy(),
 copy constructors, create_from_info(get_info(.)) and the four properties share no container with anything that existed
 before; arguments are deep-equal before and after a call; a recorded constraint is not (part of) the argument; mutating
-one side of an independent pair never changes the other.
+one side of an independent pair never changes the other.  Results of the non-in-place operators, sat gates and
+normalize / subgraph / subvalue are owned by the caller (copy-like), so the same oracle covers C05 'operands are left
+unchanged' and C07 'the inputs are not modified' over histories.
 """
 import warnings
 from fractions import Fraction
@@ -32,7 +34,11 @@ RELS = ["eq", "ne", "lt", "le", "gt", "ge"]
 ATTRS = ["_mapping", "_reverse_mapping", "_variables", "_constraints"]
 KEYS = [(0,), (1,), (2,), (0, 1), (1, 2), (0, 2), ()]
 VALS = [1, -1, 2, -2, 3, Fraction(1, 2)]
-COPYLIKE = {"copy", "ctor", "roundtrip", "get"}
+COPYLIKE = {"copy", "ctor", "roundtrip", "get",
+            # the caller owns what an operator / gate / utility returns (C05 "operands are left unchanged", C07 "the inputs
+            # are not modified", over histories: changing the result in place afterwards must not show on an operand)
+            "binop", "rsub", "muldict", "pow", "rebuild", "newlike", "sat"}
+GATES = ["BUFFER", "NOT", "AND", "NAND", "OR", "NOR", "XOR", "XNOR"]
 
 
 def cls_of(name):
@@ -219,6 +225,10 @@ class Hist:
                     if type(M).__name__ in MATRIX and labels:
                         labels = list(range(max(labels) + 1))       # a Matrix model is over every index 0..max_index
                     result, new_sort = {v: ((-1) ** n if spin else n % 2) for n, v in enumerate(labels)}, "state"
+                elif "sol_for" in st:
+                    M = env[st["sol_for"]]
+                    spin = type(M).__name__ in SPIN
+                    result, new_sort = {i: ((-1) ** i if spin else i % 2) for i in range(M.num_binary_variables)}, "state"
                 else:
                     result, new_sort = {}, "dict"
             elif op == "mut":
@@ -293,6 +303,56 @@ class Hist:
                 for k in st["path"]:
                     o = children(o)[k]
                 result, new_sort = o, sort_of(o)
+            elif op == "set":
+                M = env[st["for"]]
+                labels = sorted({x for k in M for x in k}, key=repr)
+                result, new_sort = set(labels[:st.get("take", 2)]), "nodes"
+            elif op in ("iupd", "imuldict", "ipow", "clear", "refresh"):
+                o = env[st["recv"]]
+                leak_watch = [(j, snapshot(env[j])) for j in self.partners(st["recv"])]
+                r = inplace_call(o, st, env)
+                if r is not o and r is not None:
+                    raise RuntimeError("the in-place operation returned another object")
+            elif op in ("binop", "rsub", "muldict", "pow"):
+                result, new_sort = arith_call(env, st), "model"
+            elif op == "rebuild":
+                A = env[st["a"]]
+                result, new_sort = (round(A, 1) if st["kind"] == "round" else A.subs("x", 1)), "model"
+            elif op == "newlike":
+                A = env[st["a"]]
+                ex = [env[j] for j in st["extras"]]
+                k = st["kind"]
+                if k == "normalize":
+                    result = utils.normalize(A)
+                elif k == "subgraph":
+                    result = utils.subgraph(A, *ex)
+                elif k == "m_subgraph":
+                    result = A.subgraph(*ex)
+                elif k == "subvalue":
+                    result = utils.subvalue(ex[0], A)
+                else:
+                    result = A.subvalue(ex[0])
+                new_sort = "model" if is_model(result) else "dict"
+            elif op == "readonly":
+                a = [env[j] for j in st["args"]]
+                k = st["kind"]
+                if k == "value":
+                    x, M = a
+                    spin, d2 = type(M).__name__ in SPIN, type(M).__name__ in DEG2
+                    f = {(False, False): utils.pubo_value, (False, True): utils.qubo_value,
+                         (True, False): utils.puso_value, (True, True): utils.quso_value}[(spin, d2)]
+                    f(x, M); M.value(x)
+                elif k == "extrema":
+                    (utils.approximate_puso_extrema if type(a[0]).__name__ in SPIN else utils.approximate_pubo_extrema)(a[0])
+                elif k == "temprange":
+                    quiet(sim.anneal_temperature_range, a[0], spin=type(a[0]).__name__ in SPIN)
+                else:
+                    sol, M = a
+                    result, new_sort = M.convert_solution(sol), "state"
+            elif op == "sat":
+                from qubovert import sat
+                ops = [env[x[1]] if x[0] == "v" else x[1] for x in st["ops"]]
+                result, new_sort = quiet(getattr(sat, st["gate"]), *ops), "model"
             else:
                 raise ValueError("unknown step " + op)
         except Exception as e:          # noqa: the model marks calls outside its domain with ok=false
@@ -317,7 +377,7 @@ class Hist:
             if snapshot(env[j]) != snap:
                 self.bad.append(("C19:alias-mutation-leaks",
                                  "step %d (%s) changed variable %d, which the property demands independent of variable %d"
-                                 % (len(self.steps), describe(st), j, st["i"])))
+                                 % (len(self.steps), describe(st), j, st.get("i", st.get("recv")))))
         # ---- record
         if op == "sub":
             self.push(result, new_sort, "sub", parent=st["i"])
@@ -338,6 +398,21 @@ class Hist:
             args = [env[st["i"]]]
         elif op == "anneal":
             args = [env[st["i"]]] + ([env[st["init"]]] if st.get("init") is not None else [])
+        elif op in ("binop", "rsub"):
+            args = [env[st["a"]]] + ([env[st["other"]]] if st.get("other") is not None else [])
+        elif op == "muldict":
+            args = [env[st["a"]], env[st["b"]]]
+        elif op in ("pow", "rebuild"):
+            args = [env[st["a"]]]
+        elif op == "newlike":
+            args = [env[st["a"]]] + [env[j] for j in st["extras"]]
+        elif op == "readonly":
+            args = [env[j] for j in st["args"]]
+        elif op == "sat":
+            args = [env[x[1]] for x in st["ops"] if x[0] == "v"]
+        elif op in ("iupd", "imuldict"):
+            if st.get("other") is not None and not (reach_ids(env[st["other"]]) & own_ids(env[st["recv"]])):
+                args = [env[st["other"]]]
         elif op in ("addc", "update"):
             # the call is meant to change its receiver: an argument that contains (part of) the receiver's own
             # state — the receiver itself, or a model one of whose recorded constraints is the receiver — is excused
@@ -365,6 +440,45 @@ def own_ids(o):
     return out
 
 
+def inplace_call(o, st, env):
+    import operator
+    op = st["o"]
+    if op == "iupd":
+        k = st["kind"]
+        x = env[st["other"]] if st.get("other") is not None else int(st.get("c", 2))
+        if k == "iadd": return operator.iadd(o, x)
+        if k == "isub": return operator.isub(o, x)
+        if k == "imulc": return operator.imul(o, x)
+        if k == "idiv": return operator.itruediv(o, x)
+        if k == "ifloordiv": return operator.ifloordiv(o, x)
+        if k == "normalize": return o.normalize()
+        raise ValueError(k)
+    if op == "imuldict": return operator.imul(o, env[st["other"]])
+    if op == "ipow": return operator.ipow(o, st["n"])
+    if op == "clear": return o.clear()
+    if op == "refresh": return o.refresh()
+
+
+def arith_call(env, st):
+    op = st["o"]
+    a = env[st["a"]]
+    if op == "muldict": return a * env[st["b"]]
+    if op == "pow": return a ** st["n"]
+    x = env[st["other"]] if st.get("other") is not None else int(st.get("c", 2))
+    if op == "rsub": return x - a
+    k = st["kind"]
+    if k == "add": return a + x
+    if k == "radd": return x + a
+    if k == "sub": return a - x
+    if k == "mulc": return a * x
+    if k == "rmulc": return x * a
+    if k == "div": return a / x
+    if k == "floordiv": return a // x
+    if k == "neg": return -a
+    if k == "pos": return +a
+    raise ValueError(k)
+
+
 def client_mutate(o, sort):
     """change the contents of everything reachable from o, without creating or dropping a container"""
     if sort == "model":
@@ -376,7 +490,7 @@ def client_mutate(o, sort):
         o["__junk__"] = 1
     elif sort in ("mapping", "reverse_mapping"):
         o["__junk__"] = 12345
-    elif sort == "variables":
+    elif sort in ("variables", "nodes"):
         o.add("__junk__")
     elif sort == "constraints":
         for l in o.values():
@@ -457,7 +571,7 @@ def candidates(h, rng):
             if can_build(type(H).__name__, env[a]) and len(env[a]) <= 10:
                 out.append({"o": "update", "recv": r, "arg": a})
     for i, s in enumerate(sort):
-        if s in ("mapping", "reverse_mapping", "variables", "constraints", "info", "model", "dict"):
+        if s in ("mapping", "reverse_mapping", "variables", "constraints", "info", "model", "dict", "nodes"):
             out.append({"o": "client", "i": i})
         if s == "info" and small:
             out.append({"o": "frominfo", "i": i})
@@ -475,6 +589,99 @@ def candidates(h, rng):
                 if (set(M._variables) | set(x for k in M for x in k)) <= set(env[i]) and nvars(M) <= 7 and len(M) > 0 and \
                         all(v in ((1, -1) if type(M).__name__ in SPIN else (0, 1)) for v in env[i].values()):
                     out.append({"o": "anneal", "i": m, "init": i})
+    return out
+
+
+def arith_candidates(h, rng):
+    """operators, gates and utilities applicable to the current real environment (sizes kept small)"""
+    env, sort = h.env, h.sort
+    models = [i for i, s in enumerate(sort) if s == "model"]
+    dicts = [i for i, s in enumerate(sort) if s == "dict"]
+    states = [i for i, s in enumerate(sort) if s == "state"]
+    nodes = [i for i, s in enumerate(sort) if s == "nodes"]
+    small = len(walk(env)[0]) < 110 and len(env) < 12
+    out = []
+    for a in models:
+        A = env[a]
+        ka = type(A).__name__
+        if len(A) > 8 or nvars(A) > 6:
+            continue
+        others = [b for b in models + dicts if len(env[b]) <= 6 and can_build(ka, env[b])]
+        b = rng.choice(others) if others else None
+        # in place
+        out.append({"o": "iupd", "recv": a, "other": None, "kind": rng.choice(["iadd", "isub", "imulc", "idiv", "ifloordiv"]), "c": 2})
+        if len(A) > 0:
+            out.append({"o": "iupd", "recv": a, "other": None, "kind": "normalize"})
+        if b is not None:
+            out.append({"o": "iupd", "recv": a, "other": rng.choice([a, b]), "kind": rng.choice(["iadd", "isub"])})
+        prod_ok = lambda X, Y: (ka not in DEG2 or degree(X) + degree(Y) <= 2) and len(X) * max(len(Y), 1) <= 30 and \
+            (ka not in MATRIX or int_labels(Y))
+        if b is not None and prod_ok(A, env[b]):
+            out.append({"o": "imuldict", "recv": a, "other": rng.choice([a, b]) if prod_ok(A, A) else b})
+        n = rng.choice([1, 2, 2, 3])
+        if (ka not in DEG2 or degree(A) * n <= 2) and max(len(A), 1) ** n <= 40:
+            out.append({"o": "ipow", "recv": a, "n": n})
+            if small:
+                out.append({"o": "pow", "a": a, "n": n})
+        out.append({"o": "refresh", "recv": a})
+        if rng.random() < 0.3:
+            out.append({"o": "clear", "recv": a})
+        if not small:
+            continue
+        # not in place
+        out.append({"o": "binop", "a": a, "other": None, "kind": rng.choice(["add", "sub", "mulc", "rmulc", "radd", "div", "floordiv", "neg", "pos"]), "c": 3})
+        if b is not None:
+            out.append({"o": "binop", "a": a, "other": rng.choice([a, b]), "kind": rng.choice(["add", "sub"])})
+            if prod_ok(A, env[b]):
+                out.append({"o": "muldict", "a": a, "b": rng.choice([a, b]) if prod_ok(A, A) else b})
+        dd = [b for b in dicts if len(env[b]) <= 6 and can_build(ka, env[b])]
+        if dd:
+            out.append({"o": "binop", "a": a, "other": rng.choice(dd), "kind": "radd"})
+            out.append({"o": "rsub", "a": a, "other": rng.choice(dd)})
+        out.append({"o": "rsub", "a": a, "other": None, "c": 1})
+        out.append({"o": "rebuild", "a": a, "kind": rng.choice(["round", "subs"])})
+        # utilities
+        out.append({"o": "readonly", "args": [a], "res": False, "kind": rng.choice(["extrema", "temprange"])})
+        if len(A) > 0:
+            out.append({"o": "newlike", "a": a, "extras": [], "kind": "normalize"})
+            out.append({"o": "set", "for": a, "take": rng.randint(0, 2)})
+            out.append({"o": "dict", "state_for": a})
+        if ka in LABELLED:
+            out.append({"o": "dict", "sol_for": a})
+        labels = set(A._variables) | {x for k in A for x in k}
+        if ka in MATRIX and labels:
+            labels = set(range(max(labels) + 1))
+        for x in states:
+            X = env[x]
+            if labels <= set(X) and all(v in (0, 1, -1) for v in X.values()):
+                out.append({"o": "readonly", "args": [x, a], "res": False, "kind": "value"})
+                out.append({"o": "newlike", "a": a, "extras": [x], "kind": rng.choice(["subvalue", "m_subvalue"])})
+                for nd in nodes:
+                    if "__junk__" not in env[nd]:
+                        out.append({"o": "newlike", "a": a, "extras": [nd, x], "kind": rng.choice(["subgraph", "m_subgraph"])})
+            if ka in LABELLED and set(range(A.num_binary_variables)) <= set(X) and all(v in (0, 1, -1) for v in X.values()):
+                out.append({"o": "readonly", "args": [x, a], "res": True, "kind": "convert"})
+        for nd in nodes:
+            if "__junk__" not in env[nd]:
+                out.append({"o": "newlike", "a": a, "extras": [nd], "kind": "subgraph"})
+    for d in dicts:
+        D = env[d]
+        if 0 < len(D) <= 8 and small:
+            out.append({"o": "newlike", "a": d, "extras": [], "kind": "normalize"})
+            out.append({"o": "readonly", "args": [d], "res": False, "kind": "extrema"})
+            for x in states:
+                if {y for k in D for y in k} <= set(env[x]):
+                    out.append({"o": "newlike", "a": d, "extras": [x], "kind": "subvalue"})
+    # gates: operands are labels, plain dicts and models that take any degree
+    if small:
+        cand = [("v", i) for i in models + dicts if len(env[i]) <= 3 and nvars(env[i]) <= 3 and
+                type(env[i]).__name__ not in DEG2 and int_labels(env[i])]
+        for _ in range(2):
+            g = rng.choice(GATES)
+            k = 1 if g in ("BUFFER", "NOT") else rng.randint(1, 3)
+            ops = [list(rng.choice(cand)) if cand and rng.random() < 0.6 else ["l", rng.randint(0, 2)] for _ in range(k)]
+            if any(x[0] == "v" for x in ops):
+                out.append({"o": "sat", "gate": g, "ops": ops})
     return out
 
 
@@ -559,6 +766,46 @@ def scenario(h, rng, name):
                  if (s["o"] in ("conv", "solve", "anneal") and s.get("i") == 0) or s.get("state_for") == 0]
             if c:
                 h.do_watched(rng.choice(c))
+    elif name == "arith":
+        k = rng.choice(ALL)
+        h.do_watched({"o": "new", "kind": k}); fill(h, rng, 0, 2)
+        h.do_watched({"o": "dict"} if rng.random() < 0.5 else {"o": "new", "kind": rng.choice([k, "PCBO", "PUBO", "PCSO"])})
+        h.do_watched({"o": "mut", "i": 1, "key": [0], "val": "2"})
+        if type(h.env[0]).__name__ in CONSTRAINED:
+            h.do_watched({"o": "addc", "recv": 0, "rel": rng.choice(RELS), "arg": 1, "lam": False})
+        h.do_watched({"o": "binop", "a": 0, "other": 0, "kind": "add"})                      # a + a
+        h.do_watched({"o": "client", "i": 2})
+        if can_build(k, h.env[1]):
+            h.do_watched({"o": "binop", "a": 0, "other": 1, "kind": rng.choice(["add", "sub"])})
+            h.do_watched({"o": "iupd", "recv": 0, "other": 1, "kind": rng.choice(["iadd", "isub"])})
+        h.do_watched({"o": "iupd", "recv": 0, "other": 0, "kind": rng.choice(["iadd", "isub"])})   # a += a / a -= a
+        if k not in DEG2 and len(h.env[0]) <= 5:
+            h.do_watched({"o": "muldict", "a": 0, "b": 0})                                     # a * a
+            h.do_watched({"o": "imuldict", "recv": 0, "other": 0})                             # a *= a
+        h.do_watched({"o": rng.choice(["refresh", "clear"]), "recv": 0})
+    elif name == "sat":
+        k = rng.choice(["PUBO", "PCBO", "PUBOMatrix", "PUSO", "PCSO"])
+        h.do_watched({"o": "new", "kind": k}); h.do_watched({"o": "mut", "i": 0, "key": [0, 1], "val": "1"})
+        h.do_watched({"o": "dict"}); h.do_watched({"o": "mut", "i": 1, "key": [2], "val": "1"})
+        if k in CONSTRAINED:
+            h.do_watched({"o": "addc", "recv": 0, "rel": "le", "arg": 1, "lam": False})
+        h.do_watched({"o": "sat", "gate": "BUFFER", "ops": [["v", 0]]})
+        h.do_watched({"o": "client", "i": 2})
+        g = rng.choice(GATES[2:])
+        h.do_watched({"o": "sat", "gate": g, "ops": [["v", 0], ["v", 1], ["l", 1]]})
+        h.do_watched({"o": "sat", "gate": rng.choice(GATES[2:]), "ops": [["l", 0], ["v", 0], ["v", 0]]})
+        h.do_watched({"o": "iupd", "recv": 3, "other": None, "kind": "imulc", "c": 3})
+        h.do_watched({"o": "sat", "gate": "NOT", "ops": [["v", 1]]})
+    elif name == "utils":
+        k = rng.choice(ALL)
+        h.do_watched({"o": "new", "kind": k}); fill(h, rng, 0, 3)
+        h.do_watched({"o": "dict", "state_for": 0})
+        h.do_watched({"o": "set", "for": 0, "take": 1})
+        for _ in range(5):
+            c = [s for s in arith_candidates(h, rng) if s["o"] in ("newlike", "readonly")]
+            if c:
+                h.do_watched(rng.choice(c))
+        h.do_watched({"o": "client", "i": len(h.env) - 1})
     else:   # "ctor"
         k = rng.choice(ALL)
         h.do_watched({"o": "new", "kind": k}); fill(h, rng, 0, 2)
@@ -567,7 +814,8 @@ def scenario(h, rng, name):
                 h.do_watched({"o": "ctor", "kind": K, "i": 0})
 
 
-SCENARIOS = ["copy-mutate", "self-arg", "model-arg", "update-share", "getters", "convert-solve", "ctor", "random"]
+SCENARIOS = ["copy-mutate", "self-arg", "model-arg", "update-share", "getters", "convert-solve", "ctor", "random",
+             "arith", "sat", "utils", "random"]
 
 
 def gen_history(rng, name, nrandom):
@@ -578,9 +826,11 @@ def gen_history(rng, name, nrandom):
         h.do_watched({"o": "new", "kind": rng.choice(ALL)}); fill(h, rng, 0, 2)
         h.do_watched({"o": "new", "kind": rng.choice(["PCBO", "PCSO", "PCBO", "PUBO"])})
     weights = {"mut": 1, "ctor": 2, "copy": 3, "info": 1, "roundtrip": 2, "get": 3, "conv": 1, "solve": 1, "anneal": 1,
-               "addc": 4, "update": 2, "client": 3, "frominfo": 3, "sub": 2, "dict": 1}
+               "addc": 4, "update": 2, "client": 3, "frominfo": 3, "sub": 2, "dict": 1,
+               "set": 1, "iupd": 2, "imuldict": 2, "ipow": 1, "clear": 1, "refresh": 1, "binop": 2, "rsub": 1, "muldict": 2,
+               "pow": 1, "rebuild": 1, "newlike": 2, "readonly": 1, "sat": 2}
     for _ in range(nrandom):
-        c = candidates(h, rng)
+        c = candidates(h, rng) + arith_candidates(h, rng)
         if not c:
             break
         st = rng.choices(c, weights=[weights[s["o"]] for s in c])[0]
@@ -600,7 +850,13 @@ def replay_history(steps):
 def driver_line(steps):
     out = []
     for st in steps:
-        s = {k: v for k, v in st.items() if k not in ("key", "val", "f", "state_for", "spin")}
+        s = {k: v for k, v in st.items() if k not in ("key", "val", "f", "state_for", "sol_for", "spin", "c", "gate", "take", "for")}
+        if s["o"] in ("iupd", "binop", "rebuild", "newlike", "readonly"):
+            s.pop("kind", None)
+        if s["o"] == "sat":
+            ops = s.pop("ops")
+            s["first"] = ops[0][1] if ops[0][0] == "v" else None
+            s["others"] = [x[1] for x in ops[1:] if x[0] == "v"]
         out.append(s)
     return {"op": "c19h", "steps": out}
 
